@@ -3,6 +3,7 @@
 #  1. every obligation must be discharged with all three solvers agreeing (govc -tier thorough, 60 s per query);
 #  2. the must-fail corpus of that property: every hand-written breaking change (applied to a scratch copy
 #     under the system temp dir, removed afterwards) must be reported as a violation;
+#  2a. vacuity guard (tools/deadcheck.py);
 #  3. for properties whose contracts use the 64-bit `&` lemmas: the lemmas are re-proved in QF_BV.
 # exit 0: held; exit 1 + VIOLATION line: an obligation failed; exit 2: the machinery itself failed its self-test.
 id="$1"
@@ -11,6 +12,10 @@ export GOFLAGS=-mod=mod GOPROXY=off GOSUMDB=off GOTOOLCHAIN=local
 rc=$?
 if [ $rc -ne 0 ]; then exit $rc; fi
 python3 /verif/tools/bounded.py "$id" thorough || exit 1
+#  2a. vacuity guard: no return of any function in the closure may be unreachable under the assumptions, except the
+#      reviewed, genuinely dead error branches (selftest/dead_returns_reviewed.txt)
+python3 /verif/tools/deadcheck.py "$id"
+if [ $? -ne 0 ]; then echo "VACUITY-GUARD-FAILED property=$id: a return is unreachable under the assumed contracts and is not on the reviewed list (machinery defect, not a property verdict)"; exit 2; fi
 python3 /verif/selftest/run.py -p "$id" -j 3
 if [ $? -ne 0 ]; then echo "SELFTEST-FAILED property=$id: a must-fail mutant was not reported (machinery defect, not a property verdict)"; exit 2; fi
 case "$id" in
